@@ -37,6 +37,10 @@ pub struct Case {
     /// length of the second input when it differs from `len`
     #[serde(default)]
     pub len2: Option<u16>,
+    /// the first default input is this byte string (hex) instead of the length-`len` pattern:
+    /// a constant of the library sources (raw for prf, its SHA-256 for the pre-hashed variant)
+    #[serde(default)]
+    pub dict: Option<String>,
 }
 
 fn pat(seed: u8, len: usize) -> Vec<u8> {
@@ -69,10 +73,10 @@ pub fn cases(tier: Tier) -> Vec<Case> {
                         for ebc in 0..7u8 {
                             for variant in 0..3u8 {
                                 for &len in &lens {
-                                    v.push(Case { hmac, hmac_mc, register: true, ctap: false, uv_required, verified, secrets: 0, eval, ebc, allow: 0, variant, len, len2: None });
+                                    v.push(Case { hmac, hmac_mc, register: true, ctap: false, uv_required, verified, secrets: 0, eval, ebc, allow: 0, variant, len, len2: None, dict: None });
                                     for secrets in 0..3u8 {
                                         for allow in 0..3u8 {
-                                            v.push(Case { hmac, hmac_mc, register: false, ctap: false, uv_required, verified, secrets, eval, ebc, allow, variant, len, len2: None });
+                                            v.push(Case { hmac, hmac_mc, register: false, ctap: false, uv_required, verified, secrets, eval, ebc, allow, variant, len, len2: None, dict: None });
                                         }
                                     }
                                 }
@@ -82,9 +86,9 @@ pub fn cases(tier: Tier) -> Vec<Case> {
                         for ebc in [0u8, 2, 3] {
                             for secrets in 0..3u8 {
                                 // CTAP2-level registration: `secrets` selects the hmac-secret member {absent, false, true}
-                                v.push(Case { hmac, hmac_mc, register: true, ctap: true, uv_required, verified, secrets, eval, ebc: 0, allow: 0, variant: 1, len: 32, len2: None });
+                                v.push(Case { hmac, hmac_mc, register: true, ctap: true, uv_required, verified, secrets, eval, ebc: 0, allow: 0, variant: 1, len: 32, len2: None, dict: None });
                                 for allow in [0u8, 2] {
-                                    v.push(Case { hmac, hmac_mc, register: false, ctap: true, uv_required, verified, secrets, eval, ebc, allow, variant: 1, len: 32, len2: None });
+                                    v.push(Case { hmac, hmac_mc, register: false, ctap: true, uv_required, verified, secrets, eval, ebc, allow, variant: 1, len: 32, len2: None, dict: None });
                                 }
                             }
                         }
@@ -97,14 +101,29 @@ pub fn cases(tier: Tier) -> Vec<Case> {
     for (len, len2) in [(40u16, 24u16), (24, 40), (32, 0), (0, 32), (32, 31), (64, 0), (16, 48)] {
         for hmac in 1..3u8 {
             for ebc in [0u8, 2] {
-                v.push(Case { hmac, hmac_mc: true, register: true, ctap: false, uv_required: true, verified: true, secrets: 0, eval: 2, ebc: 0, allow: 0, variant: 1, len, len2: Some(len2) });
-                v.push(Case { hmac, hmac_mc: true, register: false, ctap: false, uv_required: true, verified: true, secrets: 2, eval: 2, ebc, allow: 2, variant: 1, len, len2: Some(len2) });
+                v.push(Case { hmac, hmac_mc: true, register: true, ctap: false, uv_required: true, verified: true, secrets: 0, eval: 2, ebc: 0, allow: 0, variant: 1, len, len2: Some(len2), dict: None });
+                v.push(Case { hmac, hmac_mc: true, register: false, ctap: false, uv_required: true, verified: true, secrets: 2, eval: 2, ebc, allow: 2, variant: 1, len, len2: Some(len2), dict: None });
+            }
+        }
+    }
+    // inputs that are constants of the code: "one input per shortcut you can see in the code"
+    for l in crate::core::dict::source_literals(&["passkey-client", "passkey-authenticator", "passkey-types"], 64) {
+        for hmac in 1..3u8 {
+            for register in [false, true] {
+                for variant in 0..2u8 {
+                    let bytes = if variant == 1 { rp::sha256(&l) } else { l.clone() };
+                    v.push(Case { hmac, hmac_mc: true, register, ctap: false, uv_required: true, verified: true, secrets: 2, eval: 1, ebc: 0, allow: if register { 0 } else { 2 }, variant, len: bytes.len() as u16, len2: None, dict: Some(hex(&bytes)) });
+                }
             }
         }
     }
     v.sort_by_key(|c| serde_json::to_string(c).unwrap());
     v.dedup();
     v
+}
+
+fn unhex(s: &str) -> Vec<u8> {
+    (0..s.len() / 2).filter_map(|i| u8::from_str_radix(&s[2 * i..2 * i + 2], 16).ok()).collect()
 }
 
 const A: u8 = 1;
@@ -124,7 +143,7 @@ fn build_inputs(c: &Case) -> Inputs {
     let len = c.len as usize;
     let l2 = c.len2.map_or(len, usize::from);
     let mk = |s1: u8, s2: u8, l: usize| -> (Vec<u8>, Option<Vec<u8>>) { (pat(s1, l), (c.eval == 2).then(|| pat(s2, l2))) };
-    let eval = (c.eval != 0).then(|| mk(0x11, 0x22, len));
+    let eval = (c.eval != 0).then(|| mk(0x11, 0x22, len)).map(|(f, s2)| (c.dict.as_deref().map(unhex).unwrap_or(f), s2));
     let entry = mk(0x33, 0x44, len);
     let entry = (entry.0, Some(pat(0x44, l2)).filter(|_| c.eval == 2));
     let to_vals = |(f, s): &(Vec<u8>, Option<Vec<u8>>)| PrfVals { first: f.clone().into(), second: s.clone().map(Into::into) };
